@@ -56,6 +56,16 @@ def family(quick):
                 add(f"sw{n}:{''.join(SW[i] for i in m)}", [("v", vt(n)), ("w", wt)], vt(n), [A.estmt(A.asg(A.swz(V("v"), m), w)), A.ret(V("v"))])
                 add(f"swc{n}:{''.join(SW[i] for i in m)}", [("v", vt(n)), ("w", wt)], vt(n),
                     [A.decl("u", vt(n), V("v")), A.estmt(A.asg(A.swz(V("u"), m), w)), A.ret(B("+", V("v"), B("*", V("u"), L(100))))])
+    # ---- a vector written through a swizzle with (a permutation of) ITSELF as the source: the source is a value, read completely before the write
+    for n in (2, 3, 4):
+        for m in itertools.permutations(range(n), n):
+            nm = ''.join(SW[i] for i in m)
+            add(f"swself{n}:{nm}", [("v", vt(n))], vt(n), [A.estmt(A.asg(A.swz(V("v"), m), V("v"))), A.ret(V("v"))])
+            add(f"swselfc{n}:{nm}", [("v", vt(n))], vt(n), [A.decl("t", vt(n), V("v")), A.estmt(A.asg(A.swz(V("v"), m), V("t"))), A.ret(B("+", V("v"), B("*", V("t"), L(100))))])
+        for ln in range(2, n + 1):
+            for m in list(itertools.permutations(range(n), ln))[::2]:
+                nm = ''.join(SW[i] for i in m)
+                add(f"swselfsw{n}:{nm}", [("v", vt(n))], vt(n), [A.estmt(A.asg(A.swz(V("v"), m), A.swz(V("v"), tuple(reversed(m))))), A.ret(V("v"))])
     # ---- nested selections as assignment targets: v.zyx.xy = w writes v.z and v.y; v.zyx[0] = x writes v.z
     for n in (3, 4):
         for k1 in (2, 3):
@@ -264,6 +274,12 @@ def inputs_for(prog, seed):
             else:
                 args[p["n"]] = A.enc(val(p["t"]), p["t"])
         out.append((args, {}))
+    # two vector parameters of one type: also with some and with all components EQUAL (comparisons, differences)
+    ps = {p["n"]: p["t"] for p in f["params"]}
+    if set(ps) == {"v", "w"} and ps["v"] == ps["w"] and ps["v"]["k"] == "vec":
+        base = [3 + j for j in range(ps["v"]["n"])] if ps["v"]["c"] == "int" else [2.5 + j for j in range(ps["v"]["n"])]
+        for other in ([base[0] + 1] + base[1:], list(base), base[:-1] + [base[-1] - 1]):
+            out.append(({"v": A.enc(base, ps["v"]), "w": A.enc(other, ps["w"])}, {}))
     return out
 
 
